@@ -398,25 +398,15 @@ where
 
         while let Some(node) = ordering.pop() {
             if !invariant.contains(node.key()) {
-                let cycle = node
-                    .dfs()
+                let component = node
+                    .preorder()
                     .transpose()
                     .filter(&mut |Edge(_, v, _)| !invariant.contains(v.key()))
-                    .search_cycle();
-                match cycle {
-                    Some(cycle) => {
-                        let mut cycle = cycle.to_vec_nodes();
-                        cycle.pop();
-                        for node in &cycle {
-                            invariant.insert(node.key().clone());
-                        }
-                        components.push(cycle);
-                    }
-                    None => {
-                        invariant.insert(node.key().clone());
-                        components.push(vec![node.clone()]);
-                    }
+                    .search_nodes();
+                for node in &component {
+                    invariant.insert(node.key().clone());
                 }
+                components.push(component);
             }
         }
         components
